@@ -18,6 +18,7 @@ From FT Require Import Base.Dict Model.Edit Model.EditExec Proofs.EditInv Proofs
 From FT Require Proofs.EditNodeBasic Proofs.EditBook Proofs.EditUDN Proofs.EditUAN Proofs.EditWFEdge.
 From FT Require Gen.History_gen Proofs.HistoryGen Props.C02.
 From FT Require Proofs.EditBook Proofs.EditWFNode.
+From FT Require Proofs.EditSessions Proofs.EditWFPaint.
 Import ListNotations.
 Open Scope Z_scope.
 
@@ -183,6 +184,36 @@ Theorem C06_run_node_calls : forall ops st,
   WF (run st ops).
 Proof. exact EditWFNode.run_node_WF. Qed.
 
+(* ---- sessions with undo / redo (Proofs/EditSessions.v): from a well-formed state with an empty history,
+        EVERY state reached along ANY sequence of edge / node calls, undos and redos (accepted or refused,
+        any length) satisfies the complete invariant WF.  Hypotheses: reg_ok (every active managed feature
+        is registered - true by construction of Tracks.enable_features, C10_registry), rp_disjoint, and the
+        documented per-call preconditions at the moment each call is made (pre_along: op_pre for
+        UserAddNode as in C06_run_node_calls; without a segmentation a deleted / added node has its
+        position attributes). ---- *)
+Theorem C06_sessions : forall st0 ops,
+  forallb EditSessions.session_fragment ops = true ->
+  WF st0 -> EditSessions.reg_ok st0 -> EditBook.rp_disjoint st0 ->
+  undo_stack st0 = [] -> redo_stack st0 = [] -> EditSessions.pre_along st0 ops ->
+  forall pre post, ops = pre ++ post -> WF (run st0 pre).
+Proof. exact EditSessions.session_reachable_WF. Qed.
+
+(* ---- paint / erase strokes (Proofs/EditWFPaint.v): every ACCEPTED stroke on a well-formed state yields
+        a well-formed state, with no precondition on the stroke (labels and nodes stay one-to-one: nodes that
+        lose all pixels are deleted, with the bridge edge; partially overwritten ones are re-measured; the
+        painted label exists with exactly its pixels), and reachability over edge / node / stroke calls.
+        op_pre_paint excludes exactly one kind of REFUSED stroke, not yet proved: a non-forced stroke with a
+        new label that overwrites a foreign node and is then refused by the nested UserAddNode (rolled back). ---- *)
+Theorem C06_paint : forall st nv t idx T force a st',
+  WF st -> EditBook.rp_disjoint st -> paint st nv t idx T force = Ok a st' -> WF st'.
+Proof. exact EditWFPaint.paint_WF. Qed.
+
+Theorem C06_run_paint_calls : forall ops st,
+  forallb EditWFPaint.paint_fragment ops = true -> WF st -> EditBook.rp_disjoint st ->
+  (forall pre o post, ops = pre ++ o :: post -> EditWFPaint.op_pre_paint (run st pre) o) ->
+  WF (run st ops) /\ EditBook.rp_disjoint (run st ops).
+Proof. exact EditWFPaint.run_paint_WF. Qed.
+
 Example C06_example_invariants : cfg_ok ex_state /\ rp_disjoint ex_state /\ W_book ex_state.
 Proof.
   split; [unfold cfg_ok; cbn; intuition|]. split; [intros k _ []|].
@@ -235,3 +266,6 @@ Print Assumptions C06_step_add_node.
 Print Assumptions C06_run_edge_calls.
 Print Assumptions C06_history_is_generated.
 Print Assumptions C06_run_node_calls.
+Print Assumptions C06_sessions.
+Print Assumptions C06_paint.
+Print Assumptions C06_run_paint_calls.
